@@ -8,6 +8,9 @@ static void list_units(const std::string& tier)
     bool th = tier=="thorough";
     // relation forest: identity-reduced, the semantics pregen_relation and every example program assume (a skipped level is
     // identity; addToRelation files an event under its root level)
+    // relation forests that are NOT identity-reduced: accepted by pregen_relation / SATURATION_FORWARD, but the partitioned
+    // saturation reads a skipped level as identity; every wrong result there is the semantic class of known finding KF-C20-1
+    for (const char* rr : {"F","Q"}) for (const char* sr : {"F","Q"}) printf("shape=S3,rel=%s,set=%s,len=2\n", rr, sr);
     for (const char* rr : {"I"}) for (const char* sr : {"F","Q"}) {
         for (const char* sh : {"S3","S4"}) printf("shape=%s,rel=%s,set=%s,len=2\n", sh, rr, sr);
         printf("shape=S6,rel=%s,set=%s,len=%d\n", rr, sr, th?2:1);
@@ -176,8 +179,9 @@ static void run_unit(const std::map<std::string,std::string>& spec)
                             BS.build(it, init);
                             sat->compute(init, r);
                             std::string err = check_result(r,sk,s,want,true);
-                            if (!err.empty()) violation(err.compare(0,12,"NONCANONICAL")==0?"noncanonical-result":"wrong-result","union relation [%s] initial [%s]: %s", tab_str(un).c_str(), tab_str(it).c_str(), err.c_str());
-                            if (trad) { trad->compute(init, uni, r2); if (r2!=r && err.empty()) violation("differs-from-monolithic","saturation over the partition and REACHABLE_TRAD_NOFS over the union return different edges"); }
+                            const bool nonid = rk.rr!='I';
+                            if (!err.empty()) violation(nonid ? "pregen-relation-forest-not-identity-reduced" : (err.compare(0,12,"NONCANONICAL")==0?"noncanonical-result":"wrong-result"),"union relation [%s] initial [%s]: %s", tab_str(un).c_str(), tab_str(it).c_str(), err.c_str());
+                            if (trad) { trad->compute(init, uni, r2); if (r2!=r && err.empty()) violation(nonid ? "pregen-relation-forest-not-identity-reduced" : "differs-from-monolithic","saturation over the partition and REACHABLE_TRAD_NOFS over the union return different edges"); }
                         } catch (MEDDLY::error e) { violation("op-error","threw %s (%s:%u)", e.getName(), e.getFile(), e.getLine()); }
                         if (want!=it) note_nontrivial(hstr(ctx.cur));
                     }
